@@ -796,7 +796,9 @@ func ruleMapReceivers(r *Report, p *Program) {
 		}
 		name := calleeName(fn)
 		tp := p.SSAPkg("types")
-		paths := walkSimple(p, fn, []string{"m", "in"}, inlineHelpers([]*ssa.Package{tp}, func(f *ssa.Function) bool { return f.Object() != nil && (f.Object().Exported() || f.Signature.Recv() != nil) }))
+		paths := walkSimple(p, fn, []string{"m", "in"}, inlineHelpers([]*ssa.Package{tp}, func(f *ssa.Function) bool {
+			return f.Object() != nil && (f.Object().Exported() || f.Signature.Recv() != nil)
+		}))
 		bad := ""
 		n := 0
 		for _, pa := range paths {
